@@ -138,7 +138,7 @@ def run(tier):
                 cid = "zk%d" % zk; zk += 1
                 name = "zckdl %s: killed at target write %d/%d after %s bytes, then run again" % (label, k, W, "all" if j == -1 else "0")
                 ev1 = zckdltier.tool_event(B, hB, A, T0 or b"", mid, r1, 99 if st1 == 99 else (st1 if isinstance(st1, int) else 98))
-                ev2 = zckdltier.tool_event(B, hB, A, mid, fin, r2, st2)
+                ev2 = zckdltier.tool_event(B, hB, A, mid, fin, r2, st2, must=True)          # the restart runs undisturbed: it has to converge
                 for ev in (ev1, ev2):
                     ev["name"] = name
                 trace.append({"op": "begin", "name": name, "scenario": name}); owner.append(cid)
